@@ -418,40 +418,6 @@ example :
 
 /-! ## The scan cycle: latch once, publish once, nothing in between, nothing on a fault -/
 
-/-- Unfolding of a successful cycle. -/
-private theorem cycle_ok (bs : List Binding) (rt : Rt) (drv : List DrvIn) (dbg : Dbg) (tasks : List Task)
-    (bg : List Prog) (h : (cycle bs rt drv dbg tasks bg).err = none) :
-    rt.faulted = false ∧ (readCycleInputs bs rt.io rt.store drv dbg).err = none ∧
-    (programPhase tasks bg (readCycleInputs bs rt.io rt.store drv dbg).store).err = none ∧
-    (writeCycleOutputs bs (readCycleInputs bs rt.io rt.store drv dbg).io
-      (programPhase tasks bg (readCycleInputs bs rt.io rt.store drv dbg).store).store drv dbg).err = none ∧
-    cycle bs rt drv dbg tasks bg =
-      { rt := { io := (writeCycleOutputs bs (readCycleInputs bs rt.io rt.store drv dbg).io
-                  (programPhase tasks bg (readCycleInputs bs rt.io rt.store drv dbg).store).store drv dbg).io,
-                store := (programPhase tasks bg (readCycleInputs bs rt.io rt.store drv dbg).store).store,
-                faulted := false },
-        log := .cycleStart :: (readCycleInputs bs rt.io rt.store drv dbg).evs ++
-          (programPhase tasks bg (readCycleInputs bs rt.io rt.store drv dbg).store).evs ++
-          (writeCycleOutputs bs (readCycleInputs bs rt.io rt.store drv dbg).io
-            (programPhase tasks bg (readCycleInputs bs rt.io rt.store drv dbg).store).store drv dbg).evs ++ [.cycleEnd],
-        err := none } := by
-  unfold cycle at h ⊢
-  by_cases hf : rt.faulted = true
-  · simp [hf] at h
-  · simp only [hf, if_false, Bool.false_eq_true] at h ⊢
-    cases hie : (readCycleInputs bs rt.io rt.store drv dbg).err with
-    | some pe => simp [hie, failWith] at h
-    | none =>
-      simp only [hie] at h ⊢
-      cases hpe : (programPhase tasks bg (readCycleInputs bs rt.io rt.store drv dbg).store).err with
-      | some pe => simp [hpe, failWith] at h
-      | none =>
-        simp only [hpe] at h ⊢
-        cases hoe : (writeCycleOutputs bs (readCycleInputs bs rt.io rt.store drv dbg).io
-            (programPhase tasks bg (readCycleInputs bs rt.io rt.store drv dbg).store).store drv dbg).err with
-        | some pe => simp [hoe, failWith] at h
-        | none => exact ⟨by simp, trivial, trivial, rfl, rfl⟩
-
 /-- **Latch once, publish once (phase order).**  The trace of every successful cycle is
 `CycleStart`, then one `read` per driver in registration order, then events none of which is a driver
 call and whose program starts are exactly all programs of the ready tasks followed by the background
